@@ -62,6 +62,47 @@ CHECKS["C12"] = (
     "not exercised (meaning not fixed by the statement). Known finding KF-C12-and-or-precedence (not repaired: needs the ANTLR tool).",
     "6/C12")
 
+CHECKS["C02"] = (
+    "For 0..2 (quick) / 0..3 (thorough) rows with symbolic match bits and symbolic sort keys (nullable string <=1 byte, full-width int64, float64 bit patterns "
+    "except NaN, bool), an enumerated list of sort specifications (id asc/desc, one key type per direction, two-field, five-field incl. the SortMax boundary, "
+    "parsed by the real parser) and symbolic paging (skip absent or any int64; limit absent, none, or any int64), the solver shows that the real "
+    "QueryIdsC -> uniqueIndexScanner / sortingScanner (row comparators, llrb from source, setPaging) returns count = number of matching rows, page length = "
+    "min(limit, matches - max(skip,0)) and the rows of rank skip, skip+1, ... under the reference order (nulls first ascending, id tie-break); cursor-style "
+    "iteration (IterateIds) returns the same page for unsorted queries.",
+    BASE_NOTE + "Rows are stored through the real Create into the mbolt model. Outside: more rows, longer strings, datetime keys, NaN sort keys.",
+    "6/C02")
+CHECKS["C04"] = (
+    "One inductive step per fk wiring (nullable / non-null fk index, cascade-delete fk index, fk constraint restrict / cascade): arbitrary valid population of "
+    "2 targets and 2 (quick) / 3 (thorough) referrers, one symbolic operation (create / update / field-restricted update with an existing, missing or nil target; "
+    "delete referrer; delete target). Asserted on every path: accepted iff the target exists (or nil and nullable); back-reference buckets equal the current "
+    "referrers exactly; delete of a referenced target is refused with ReferenceExistsError (restrict) or removes exactly the referrers (cascade). The AnyId "
+    "harnesses repeat this with a symbolic target id (1..2/3 bytes over printable ASCII incl. quote and backslash, plus \\f\\n\\r\\t): the filter the delete path builds "
+    "from the id goes through the recorded parse of the template and the real listener, typer, ParseZqlString and evaluator.",
+    BASE_NOTE + "Self-references and reference cycles are not exercised (meaning under restrict not fixed by the statement; cascade over a cycle recurses - see DESIGN.md). "
+    "For a data-dependent filter the ANTLR front end is modelled by the recorded token stream of the template plus the grammar's STRING-body condition; "
+    "native replay uses the real parser. Outside: non-ASCII ids, control characters other than the four escapable ones.",
+    "6/C04")
+CHECKS["C05"] = (
+    "(a) SetLinks merge: three targets with symbolic distinct ids (1..2 arbitrary bytes), any current link set, any requested list of <=3/4 entries (any order, "
+    "duplicates): afterwards both sides hold exactly the requested set. (b) Symmetry step over 2x2 entities from an arbitrary link matrix: AddLinks / RemoveLinks / "
+    "SetLinks (lists with repeats), AddLink / RemoveLink with their changed flag, delete of either entity: both sides agree with the expected matrix, linking to a "
+    "missing entity fails. (c) Ref-counted step: symbolic symmetric count (absent or 1..2^30), increment / decrement / SetLinkCount(any n in [0,2^31)) from either "
+    "side / delete of either entity / link to a missing entity: both sides equal and positive, or both absent.",
+    BASE_NOTE + "Both sides are read from the raw list buckets. SetLinkCount with a negative count is outside (no documented meaning).",
+    "6/C05")
+CHECKS["C16"] = (
+    "Population of 2 slots (absent / ordinary / system, symbolic), then one transaction of 2 (quick) / 3 (thorough) symbolic operations (create / update / delete, "
+    "each through the ordinary context or the system context derived from it, each passing any value of IsSystem and Migrate): the transaction is accepted iff no "
+    "operation touches a system entity from the ordinary context; refused transactions change nothing; the stored flag always equals the one at creation.",
+    BASE_NOTE + "time.Now is a fixed instant.",
+    "6/C16")
+CHECKS["C19"] = (
+    "The in-memory ObjectStore is checked against the same reference model as C02 (and the null rules of C01): 0..2/3 objects with nullable symbolic fields, "
+    "enumerated filters over non-set symbols (= null, != null, comparisons, and/or, bare bool) x sort specifications, symbolic skip/limit; real "
+    "memSortingScanner, object comparators, ObjectCursor. Both stores equal one spec, hence each other.",
+    BASE_NOTE + "Outside: datetime symbols, more objects, longer strings.",
+    "6/C19")
+
 NOT_APPLICABLE = {
     "C18": "quantifies over goroutine schedules and data races on top of bbolt's MVCC; a sequential SSA symbolic executor has no schedule variable, bbolt's isolation is not encodable, and in the bbolt model it would hold by construction (DESIGN.md section 7)",
 }
